@@ -12,856 +12,957 @@ Definition show_fres (r : fres) : string :=
   end.
 Definition check (rs : list rune) : string := digest (show_fres (format_res rs)).
 Definition full (rs : list rune) : string := show_fres (format_res rs).
-Eval vm_compute in ("<<<M317>>>" ++ check (runes_of_ascii "MetaData Logon
-    {
-    char[]u8x , matchKey pack,
-u8 int ``, char[ 007
-    ]
-msg_type ,
-BodyLength o	,string_ crc  `a\`, } options	{
-    //x
-    trueish = int16 Packet
-    = char MetaDataX=
-char[
-//
+Eval vm_compute in ("<<<M263>>>" ++ check (runes_of_ascii "
+packet Z9_ //x
+{ @calculatedFrom( ""1"" )
+match
+body as u8x{ [ 7 ] :
+u ,
+[7
+,00, ""a\""b""
+, """" , ""\n"" , 00
+] : charz , 1	: // c
+Packet
+, """ ++ [28040; 24687]%N ++ runes_of_ascii """ :
+f32a ,  00 : // trailing space 
+len } ,@lengthOf(calculatedFrom )	MetaDataX
+    , Packet	@lengthOf(
+    int ) , repeat // `tick` ""quote"" 'q'
+char[ 7 ]calculatedFrom, @calculatedFrom(""a\\"" ) zchar[ //
+255 // " ++ [128512]%N ++ runes_of_ascii " emoji
+] f32a @calculatedFrom( """ ++ [233]%N ++ runes_of_ascii "t" ++ [233]%N ++ runes_of_ascii """ ) ,	@calculatedFrom( ""a\""b"" // packet A { u8 x, }
+)char[7
+    //	t
+    ] i8i8 @calculatedFrom(""a\\"") `crlf
+line` ,zchar[
+    0123456789	]
+x `line1
+line2`
+,@leftPad () repeat
+u64 stringy , @lengthOf( x	) repeat
+body
+{//	t
+Z9_ {
+repeat asx , repeat crc i64_ // " ++ [27880; 37322]%N ++ runes_of_ascii "
+, repeat rootA { repeat rootA MetaDataX `line1
+line2`
+    // `tick` ""quote"" 'q'
+    ,match
+i64_ as
+calculatedFrom {
+    7
+:
+x[ 7 ] : stringy , ""1"": i8i8 , [
+""1"" , 42 ,
 // trailing space 
-255 ] // a // b
-;}	root
-    //
-    packet a1 // packet A { u8 x, }
-{ } root packet // c
-MetaDataX{
-@lengthOf(_x)
-repeat
-Logon{// " ++ [128512]%N ++ runes_of_ascii " emoji
-o
-a1 , uint64
-    u128 ,  } ,zchar[007] chars
-    `line1
-line2` ,	repeat Header u128`doc`, // " ++ [128512]%N ++ runes_of_ascii " emoji
-@calculatedFrom(""1"")int
-trueish
-, char[0123456789
-    ]
+/// triple
+""" ++ [233]%N ++ runes_of_ascii "t" ++ [233]%N ++ runes_of_ascii """ , 10 ,
+255 , 0 , 10 ]
+: u ,
+""x y""
+:
+    i8i8 }
+// `tick` ""quote"" 'q'
+//x
+,uint64 _x `
+` ,char[ 0 ] i64_ @calculatedFrom( ""CRC32""
+)
+    , }, x_y_z {
+char[] T
+// a // b
+// @lengthOf(
+,} ,} ,repeat  u64 Foo `a\`,
+    uint8
 uint8x,
-i8 int	@lengthOf( msg_type )`line1
+match
+//	t
+// trailing space 
+roots
+as chars {1
+    : _x ""a\""b"" :uint8x, 42 : metadata // " ++ [128512]%N ++ runes_of_ascii " emoji
+, // `tick` ""quote"" 'q'
+[// @lengthOf(
+""\n"" ,
+255]
+: zchar
+[ """ ++ [233]%N ++ runes_of_ascii "t" ++ [233]%N ++ runes_of_ascii """ ,3
+, 4294967296 ,// trailing space 
+0123456789 , ""x y"" ] : metadata[ // c
+""it's"" , ""// no comment""
+]  :Z9_
+    , }
+,	}
+    , } // a // b
+MetaData rootA	{ char[ 4294967296 ] msg_type,// @lengthOf(
+char[]  u128, uint64 a1 , int8 crc , Pad
+    msg_type `doc`
+,
+}
+//	t
+/// triple
+packet x_y_z
+    {@lengthOf( crc) match packetx as f32a	{ 0123456789:A
+,	00 :	u // @lengthOf(
+}, }
+")).
+Eval vm_compute in ("<<<M123>>>" ++ check (runes_of_ascii "
+packet _x{  leftPad `it's`
+    , match Logon as
+    matchKey { ""packet"" :  stringy,3
+: u
+    ,//
+""1"" : Pad }
+,  float32 Z9_ @lengthOf( i8i8	)
+    `" ++ [233]%N ++ runes_of_ascii "`
+    // " ++ [27880; 37322]%N ++ runes_of_ascii "
+    , @tag( 3 )match
+    //	t
+    As as Pad{
+"""" : chars
+, ""x y"" //
+: i64_	,  } ,  @calculatedFrom(""it's"" // c
+) @leftPad ( ' '
+) zchar[ 0123456789	] falsey , match	A as packetx
+{ [ 42]:
+matchKey // c
+, }// `tick` ""quote"" 'q'
+,@leftPad
+( ' ' )
+    match x
+    // c
+    as a1 { ""packet"" //x
+:
+    a1 , 10 : pack""{,}"" :  u8x// a // b
+, [ 007
+,00// trailing space 
+]
+:trueish ,
+    ""x y"" :pack //	t
+,
+""" ++ [233]%N ++ runes_of_ascii "t" ++ [233]%N ++ runes_of_ascii """
+:
+matchKey , } , @leftPad ( '0'
+) uint8x u
+    ,	zchar[
+    3 // a // b
+]
+    //	t
+    u ``
+    , @rightPad (
+    ' ') repeat _x
+`` , } MetaData Foo
+    {a1 Z9_ ,
+options1 T ,u32 u8x
+`crlf
+line`, metadata falsey,lengthOf
+x_y_z ,
+    } packet calculatedFrom { @tag( 3 ) string A,
+    match leftPad as a1	{//	t
+0123456789: calculatedFrom , }
+    ,
+    match crc//
+as
+    body {
+    00 : _x, } , o @calculatedFrom(	""x y"" )
+//
+// " ++ [128512]%N ++ runes_of_ascii " emoji
+,  } packet T { }  packet Logon { @leftPad
+(// @lengthOf(
+'\x00' )
+As @calculatedFrom(
+""a	b"" ) `line1
+line2`	, pack lengthOf // `tick` ""quote"" 'q'
+, } // `tick` ""quote"" 'q'")).
+Eval vm_compute in ("<<<M316>>>" ++ check (runes_of_ascii "// `tick` ""quote"" 'q'
+packet crc { @tag(0 ) //x
+chars , i8i8
+@lengthOf( packetx ), repeat
+f32a
+    {
+match packetx as a1{
+    ""x y""
+:
+//
+// `tick` ""quote"" 'q'
+Packet, } ,}
+, @leftPad(
+'\x00' )
+uint8 int ,
+match float as a1 {
+    // `tick` ""quote"" 'q'
+    [4294967296
+    ]
+:// " ++ [27880; 37322]%N ++ runes_of_ascii "
+Packet
+    , } //
+, repeat zchar[ 007 ] zchar`tab	here`
+    , repeat
+// " ++ [27880; 37322]%N ++ runes_of_ascii "
+// a // b
+x
+    , }	packet
+string_
+    // c
+    { char[
+0123456789] a1
+, @calculatedFrom( ""a\\"" ) @tag( 42)
+@leftPad
+('\x00' ) options1
+    @calculatedFrom( """ ++ [28040; 24687]%N ++ runes_of_ascii """
+)`it's`	, repeat
+rootA// packet A { u8 x, }
+{
+    //
+    match Logon as Packet { [10 ,	255 , 0,
+007 ,
+""CRC32""
+, ""abc"" ] : len , """ ++ [28040; 24687]%N ++ runes_of_ascii """:	a1	, } , match leftPad as Header { 007:  As
+, 255: repeatCount , /// triple
+"""" // packet A { u8 x, }
+: matchKey //
+, [ 255 ,
+    3,	""abc"" , """", ""\n"" , 1
+, """"// " ++ [27880; 37322]%N ++ runes_of_ascii "
+,
+42//x
+] : pack ,
+}
+, }
+// @lengthOf(
+// `tick` ""quote"" 'q'
+, int
+{int64 chars , }// @lengthOf(
+, } 	 ")).
+Eval vm_compute in ("<<<M1868>>>" ++ check (runes_of_ascii "root
+	packet
+lengthOf	{	// a // b
+	match
+
+    i64_ 
+as
+options1{ ""// no comment"": 
+// packet A { u8 x, }
+    	f32a 
+// @lengthOf(
+
+  , 65535
+    :	falsey ,
+} , @tag(	0
+
+    ) char[]body	@lengthOf(
+lengthOf
+),	u64	string_
+    `it's`
+    ,	@lengthOf(
+	string_ 	 // packet A { u8 x, }
+
+	)
+crc 
+{ 
+repeat
+
+zchar[
+
+3
+
+    ]
+    u, pack	// packet A { u8 x, }
+`a\`// trailing space 
+  ,
+char[] crc``
+, 
+}  //x
+
+,
+int16 	 // packet A { u8 x, }
+
+metadata`line1
 line2`
 ,
-    //x
-    @rightPad (
-) repeat f64 Z9_, metadata{ falsey @calculatedFrom(
-""abc""
-) , }, options1 @calculatedFrom( ""\n"" ) ,@calculatedFrom(	""\n"" )  match metadata
-    as Header {[
-    """" ,  ""1"" ] :	Foo //
-, [  ""\n""
-, 10
+
+    }root 
+packet  //	t
+	leftPad
+
+    {
+	repeat 
+zchar[ 
+4294967296//x
+  ]
+MetaDataX 
 ,
-// " ++ [27880; 37322]%N ++ runes_of_ascii "
-// c
-""{,}"" ]
-: Logon
-,
-[
-    """"] :
-len
-, ""\n""  :// trailing space 
-msg_type , [ // c
-00 ]
-    : trueish , 10 : u8x, }
-    ,
-    } // " ++ [27880; 37322]%N ++ runes_of_ascii "
-root
-packet
-    BodyLength
-    { char[42
-] body  @calculatedFrom(
-    ""{,}"" ) `tab	here` // trailing space 
-,
-i32
-stringy  @calculatedFrom( """ ++ [28040; 24687]%N ++ runes_of_ascii """ ),  @tag(  0123456789	)
-@rightPad ( )@tag( 00 )  i16 a1 @lengthOf( pack// a // b
-) ,
-    @tag( 10
-)
-@leftPad ('\x00' ) // `tick` ""quote"" 'q'
-@calculatedFrom( ""a\""b"" ) repeat char[] // c
-stringy `
-`	, chars `say ""hi""`,
-@lengthOf(  a1 ) @leftPad( '0'  )
-    match Z9_
-as Header { 00
-    //	t
-    : As ,
-} // " ++ [27880; 37322]%N ++ runes_of_ascii "
-, o @calculatedFrom( """ ++ [128512]%N ++ runes_of_ascii """
-    )
-, @leftPad //	t
-(	)As// trailing space 
-@calculatedFrom( ""// no comment"") ,
-match x_y_z  as
-    BodyLength {
-""x y"" // `tick` ""quote"" 'q'
+@tag(10  // `tick` ""quote"" 'q'
+    	)match
+tag  as
+falsey
+	{
+
+7
+
 :BodyLength
-, """ ++ [28040; 24687]%N ++ runes_of_ascii """  : packetx  , 0 :
-    Header ,
-    ""x y"" : matchKey
-    //	t
-    ,}, } // trailing space ")).
-Eval vm_compute in ("<<<M53>>>" ++ check (runes_of_ascii "root
-packet u {
-    char[007 ]x_y_z
-`two words` , int16 u8x
-    @calculatedFrom( ""packet""
-    )
-    // @lengthOf(
-    ,
-    float64
-    falsey
-@calculatedFrom( ""\" ++ [233]%N ++ runes_of_ascii """ ) `u8 x,`
-    ,
-    trueish @calculatedFrom(
-    """ ++ [233]%N ++ runes_of_ascii "t" ++ [233]%N ++ runes_of_ascii """ )
-`tab	here` , @tag( 1	) repeat char[
-4294967296 ]
-    // " ++ [128512]%N ++ runes_of_ascii " emoji
-    u , match
-    // " ++ [27880; 37322]%N ++ runes_of_ascii "
-    i8i8
-    //
-    as // " ++ [128512]%N ++ runes_of_ascii " emoji
-o
-    { [""a\\""
-    ]:
-    matchKey,[ 0123456789
-    //x
-    , ""x y""  , 0 ,
-/// triple
-/// triple
-00 , ""a	b"" ,""{,}"" , // a // b
-""{,}"" ,
-007 ] :
-u8x,
-255 : u128 , [
-""" ++ [28040; 24687]%N ++ runes_of_ascii """
-    , 0123456789	,65535 ,
-    // a // b
-    ""\n"" ] : _x, 7 :
-falsey} , @leftPad ( )// " ++ [128512]%N ++ runes_of_ascii " emoji
-charz @lengthOf(A ) , // `tick` ""quote"" 'q'
-} root packet stringy
-{
-    repeat
-    MetaDataX {float32
-T , string
-    x_y_z `a\`
-, repeat	_x  zchar`u8 x,` , }
-    , } packet Foo {
-    @lengthOf(  roots
-    ) calculatedFrom a1, zchar[ 0123456789]	_x,
-// @lengthOf(
-// trailing space 
-match //
-roots as MetaDataX // c
-{ /// triple
-42 :	_x ,
-3// a // b
-:msg_type  7 : a1, """"	:i8i8 , //x
-[ """ ++ [233]%N ++ runes_of_ascii "t" ++ [233]%N ++ runes_of_ascii """ ]: i8i8 , 00 : leftPad ,
-    } , @calculatedFrom( // @lengthOf(
-"""" ) char[  00 // c
-]
-Foo
-@lengthOf( uint8x) ,  f32 chars , }packet
-    metadata
-    //	t
-    { } MetaData i64_ // packet A { u8 x, }
-{ lengthOf options1 ,
-// @lengthOf(
-//x
-a1 A,
-    x Header ,
-    }
-")).
-Eval vm_compute in ("<<<M1853>>>" ++ check (runes_of_ascii "root packet metadata {
-    @lengthOf(options1)
-    int32 zchar @calculatedFrom(""// no comment"") `
-    `,
-    repeat calculatedFrom `it's`,//
-    match BodyLength as lengthOf {
-        3 : leftPad,
-    },
-    repeat u128,
-    char[10] chars,// @lengthOf(
-    falsey @calculatedFrom(""x y"") `{ , }`,
-    @tag(42)
-    float64 i64_,
-    u8x @calculatedFrom(""{,}"") `two words`,
-    @lengthOf(T)
-    char[255] pack `it's`,
-    match MetaDataX as i64_ {
-        //
-        """ ++ [28040; 24687]%N ++ runes_of_ascii """ : Header,
-        0 : x_y_z,
-        3 : int,
-        ""abc"" : u8x,
-    },
-}
+,0
+    : i64_
+    ,},
+	repeat
 
-packet i64_ {
-    @rightPad()
-    /// triple
-    pack {
-        match MetaDataX as trueish {
-            1 : len,
-            00 : falsey,
-            """" : x,
-        },
-    },
-    @tag(1)
-    char[] int @lengthOf(metadata),
-    a1 @lengthOf(calculatedFrom),
-    @tag(7)
-    tag @lengthOf(u),
-    BodyLength @calculatedFrom(""it's"") `say ""hi""`,
-    string msg_type,
-}
+    char[
 
-MetaData Logon {
-    BodyLength _x `it's`,
-    int32 body,
-    // trailing space 
-}
+    255 
+  // @lengthOf(
+		]
+A
+	,  char[ 
+7
+] trueish
 
-root packet body {
-}")).
-Eval vm_compute in ("<<<M1446>>>" ++ check (runes_of_ascii "// top
-    options 
-  // c0
-{ 	 // c1
-	uint8x 	 // c2a
-	// c2b
-	=
-    007  // c4a
-    // c4b
-; lengthOf
-    // c6
-  	=
-i8
-    ; 	 // c9a
-    // c9b
-
-} packet
-    i64_ 
-    // c12
-
-	{	// c13
-	  @calculatedFrom(	// c14
-	  ""1""
-	// c15
-) 	 // c16
-	@tag( // c17
-	3 
-) 
-// c19
-@lengthOf( 
-
-    // c20
-  rootA
-)	// c22
-    repeat  // c23
-    int8 // c24a
-	// c24b
-    	Packet  // c25a
-	// c25b
-  `u8 x,` 	 // c26
-
-,// c27
-  	} // c28a
-// c28b
-	root
-	    // c29
-  packet 	 // c30a
-
-  // c30b
-stringy
-
-// c31
-	  {	// c32a
-    // c32b
-@rightPad
-
-( ' '// c35
-		)// c36
-
-repeat	// c37a
-  // c37b
-	char[  // c38
-      10// c39
-]
-    repeatCount // c41a
-    	// c41b
-  ,// c42
-
-  @tag( // c43a
-    	// c43b
-  	255 
-      // c44
-	  ) // c45
-float64
-    // c46
-	  msg_type 
-  // c47
-@calculatedFrom( ""packet"" 
-
-    // c49
-    )// c50a
-	// c50b
-, // c51a
-    // c51b
-
-  }	// c52
- 
-")).
-Eval vm_compute in ("<<<M322>>>" ++ check (runes_of_ascii "packet leftPad { //
-i8 stringy @calculatedFrom( """ ++ [128512]%N ++ runes_of_ascii """	) , int@calculatedFrom(
-// c
+    @calculatedFrom(
+""a\\""
+) `two words`
 // " ++ [128512]%N ++ runes_of_ascii " emoji
-""a	b"" )
-`it's` ,
-    @leftPad () @tag( 0123456789
-    )int32 u8x , @lengthOf(A )float64	u128	@calculatedFrom(
-    ""a\\"" ), //x
-} options { //x
-Pad = 0 u =
-    ' ' }MetaData
-    a1 { char[]
-metadata	`// not a comment`
-    // @lengthOf(
-    ,
-}	packet
-Foo { @tag(
-42 )	repeat BodyLength ,
-    int8 metadata`{ , }` ,@leftPad ( // c
-)// " ++ [27880; 37322]%N ++ runes_of_ascii "
-@calculatedFrom(//
-""`tick`""
-    ) @calculatedFrom(	""a	b""	) u32 stringy , @lengthOf( roots ) zchar[ 0 ] msg_type @lengthOf( i64_
-)`tab	here`	,i8 Header	`{ , }`
-, char[ 7
-] trueish @lengthOf(	packetx
-    )
-, u64	charz `
+    //	t
+	,
+	i16 Logon, }
+")).
+Eval vm_compute in ("<<<M1638>>>" ++ check (runes_of_ascii "
+
+  //x
+  packet
+
+    x {
+	@lengthOf( 
+string_ 
+)  
+  // `tick` ""quote"" 'q'
+// trailing space 
+msg_type
+{int // a // b
+@lengthOf(
+
+    chars
+    ) 
+
+//x
+    // " ++ [27880; 37322]%N ++ runes_of_ascii "
+  	`" ++ [28040; 24687; 31867; 22411]%N ++ runes_of_ascii "`,	int `a\`
+
+    , }
+	,
+
+uint32 chars@calculatedFrom(
+	""`tick`"") 
 `
-    ,
-    zchar[
-//	t
-// c
-65535]
-repeatCount
-`it's`
-    ,match // @lengthOf(
-calculatedFrom as calculatedFrom  {""a	b""
-: roots 42	: MetaDataX	,
-},
-}")).
-Eval vm_compute in ("<<<M1362>>>" ++ check (runes_of_ascii "
-options { StringPrefixLenType =  u8;	ArrayPrefixLenType= 
-u32
-;
+`
 
-FixedStringPadFromLeft=
-	true 
-; FixedStringPadChar
-    =
+, @lengthOf( packetx // trailing space 
 
-' ' ; 
-}
-	packet Leg
-    {}
-packet Heartbeat
-    {
+)	match metadata	as
+    x_y_z{
+65535 :
+    x
+    ,	007 
+	    // `tick` ""quote"" 'q'
+	  // " ++ [128512]%N ++ runes_of_ascii " emoji
 
-    zchar[
+:
+    u
+[
 
-    6]msgKind
-    ,
-    @rightPad
-('0')
-char[3
-] Qty
-, zchar[9 ] Side2,
-	i8
-
-    Acct
-, } 
-packet Logout{int8	x,
-
-} 
-packet
-Order{
-
-char[]
-
-    Acct  ,
-zchar[
-8 ]
-	count ,
-
-    u32
-OrderId 
-,uint8 
-lastPx	,  u16
-clOrdID ,	zchar[ 
-7]
-    Note	,
-    }
-    root packet Reject {
-@leftPad(
-' '
-) char[ 8 ]Side2,
-
-i8 
-clOrdID , repeat
-	f32
-
-x
-,
-u32
-	lastPx,
-match
-lastPx as Body {
-    [30
-	, 147] : Heartbeat
-
-    ,	134 :
-Leg	, 183	:
-
-    Logout ,
-40
-	: Order,}, 
-u16	Ref 
-@calculatedFrom(
-	""CRC32"" ), }
-")).
-Eval vm_compute in ("<<<M1798>>>" ++ check (runes_of_ascii "packet stringy {
-    repeat T {
-        u64 lengthOf `tab	here`,
-        repeat _x {
-            match calculatedFrom as Header {
-                [""" ++ [233]%N ++ runes_of_ascii "t" ++ [233]%N ++ runes_of_ascii """] : _x,
-                // @lengthOf(
-                [""packet""] : MetaDataX,
-                255 : u128,
-                42 : A,
-                ""// no comment"" : body,
-            },
-            repeat crc Foo,
-            charz,
-        },
-        zchar[1] i8i8 @calculatedFrom(""x y""),
-        uint8x Pad `line1
-                line2`,
-    },
-    @lengthOf(u)
-    char[4294967296] crc,
-    @tag(007)
-    repeatCount,
-    repeat char[] Header,
-    @rightPad()
-    char[] string_ `a\`,
-}")).
-Eval vm_compute in ("<<<M1724>>>" ++ check (runes_of_ascii "  packet
-    Header
-
-{	char[
-
-    10
+    7,""// no comment""	, """ ++ [28040; 24687]%N ++ runes_of_ascii """
 	]
-
-    A `it's` , @calculatedFrom( 
-""" ++ [28040; 24687]%N ++ runes_of_ascii """ 
-)
-    calculatedFrom	// a // b
-      @lengthOf(
-	zchar )	`tab	here`
-
-    , u32 BodyLength  ,
-
-    @lengthOf(
-stringy )//
-@rightPad (
-
-    ' '
-) @tag(0123456789
-
-    )  body{ match	i8i8 as Foo	{  [7,
-""CRC32"" ] :
-	options1
-    ,[
-""a\""b""
-,
-
-    """ ++ [128512]%N ++ runes_of_ascii """
-	,
-
-""it's"" ,
-    ""a	b"",
-	""// no comment""
-	,
-    ""it's""
-
-    , 7
-
-,
-""abc"" ]
-    :
-As ,
-
-1 :
-
-    _x 
-    // " ++ [128512]%N ++ runes_of_ascii " emoji
-//
-  }, repeat
-
-    uint8x  {  crc 
-@calculatedFrom( ""a\\""  )
-,
-
-}  , repeat
-
-    i8
-tag ,// " ++ [128512]%N ++ runes_of_ascii " emoji
-	} ,
-}
-")).
-Eval vm_compute in ("<<<M1521>>>" ++ check (runes_of_ascii "
-options
-    {
-    ArrayPrefixLenType=u64 ; FixedStringPadFromLeft=	true
-;
-FixedStringPadChar =
-
-'0'
-;
-    }
-
-    packet
-
-    Quote{
-
-} packet
-
-Ack 
-{
-    repeat
-InNote66
-{
-u8 pad0 
-,
-
-    } , 
-}
-
-    packet 
-Reject
-{
-
-}
-
-root packet
-
-Order
-	{Quote ,
-
-repeat
-	Reject
-	,  string 
-venue
-, string	seqNo
-
-    , uint32 Ref ,  u16
-    lastPx
-
-,
-	u32
-clOrdID
-    @lengthOf(
-    Body  ) ,
-
-match
-lastPx as  Body
-{
-
-    190
-	: Reject,  186:  Quote , 22 :	Ack ,
-} , u16 Flags
-	@calculatedFrom(  ""CRC32""
-
-)  , }
-
-")).
-Eval vm_compute in ("<<<M1412>>>" ++ check (runes_of_ascii "// top
-packet Logon {
-    // c2a
-    // c2b
-    string user,// c5a
-    // c5b
-}// c6a
-
-// c6b
-root packet Frame {
-    // c10
-    u8 K,
-    // c13
-    match K as Body {
-        // c18
-        1 : Logon,
-        // c22a
-        // c22b
-        2 : Logout,
-        // c26
-    },// c28a
-    // c28b
-    Tail,// c30a
-    // c30b
-}// c31a
-
-// c31b
-packet Logout {
-    // c34a
-    // c34b
-    u16 reason,
-}
-
-// c38
-packet Tail {
-    // c41
-    u32 crc,// c44
-}// c45a
-// c45b")).
-Eval vm_compute in ("<<<M68>>>" ++ check (runes_of_ascii "
-packet
-    Header {  match roots  as packetx
-// " ++ [27880; 37322]%N ++ runes_of_ascii "
-//	t
-{
-    // `tick` ""quote"" 'q'
-    [
-""" ++ [28040; 24687]%N ++ runes_of_ascii """ ,
-    0123456789 ]:packetx,
-//
-// c
-4294967296
-    : Logon ,	[ ""\n""
-    ,""x y"" , // " ++ [128512]%N ++ runes_of_ascii " emoji
-""packet"" , ""packet"" ] : i8i8 , 42 // `tick` ""quote"" 'q'
-:Foo
+	:
+x ""a\\""	: MetaDataX
     ,
-}, //	t
-@calculatedFrom( ""x y""	) f64 Logon ,} options
-    {
-    // " ++ [128512]%N ++ runes_of_ascii " emoji
-    chars=
-' '
-    ; repeatCount =
-""" ++ [233]%N ++ runes_of_ascii "t" ++ [233]%N ++ runes_of_ascii """ x	= ""\n"" ; calculatedFrom = ""`tick`"" //x
-; }
+0123456789
+:	lengthOf
+10
+
+    : 
+	    //
+  // `tick` ""quote"" 'q'
+    float  },
+u16
+	Logon
+    @calculatedFrom( ""x y"" )`tab	here` 
+      //	t
+    	//
+  ,
+@lengthOf( 
+Foo
+    )  zchar 	 /// triple
+    , }  packet
+
+tag 
+{}
+root
+
+packet x_y_z{
+	}	MetaData
+	int  {
+	string
+    A
+`" ++ [233]%N ++ runes_of_ascii "` , }
+
 ")).
-Eval vm_compute in ("<<<M1262>>>" ++ check (runes_of_ascii "// top
-packet // c0
-B // c1
-{
-    // c2
-u8
-    // c3
-a , } root packet // c8a
-  // c8b
-P // c9a
+Eval vm_compute in ("<<<M1327>>>" ++ check (runes_of_ascii "// top
+packet
+    // c0
+Logon { // c2a
+  // c2b
+string // c3a
+  // c3b
+user
+    // c4
+, // c5a
+  // c5b
+} // c6a
+  // c6b
+root
+    // c7
+packet Frame // c9a
   // c9b
-{
-    // c10
-u8 // c11
-K , // c13
-u64 // c14a
-  // c14b
-L @lengthOf( // c16a
-  // c16b
+{ // c10
+u8
+    // c11
+K // c12
+,
+    // c13
+match // c14
+K // c15
+as // c16
 Body
     // c17
-) , match // c20a
-  // c20b
-K as // c22a
+{
+    // c18
+1 :
+    // c20
+Logon // c21
+, // c22a
   // c22b
-Body // c23
-{ // c24a
+2 // c23
+: // c24a
   // c24b
-1 : // c26a
-  // c26b
-B // c27a
-  // c27b
+Logout // c25a
+  // c25b
 ,
-    // c28
-} // c29
-, // c30
-}
-    // c31
-")).
-Eval vm_compute in ("<<<M127>>>" ++ check (runes_of_ascii "packet a1{ @leftPad ( ) float
-@lengthOf(
-uint8x ) , }
-packet Logon {
-char Logon
-@calculatedFrom( ""a\\"" )
-    ,T stringy ,
-//
-// c
-repeat uint8 stringy `two words` , } MetaData charz{ u
-    tag
-    `
-`
-, a1 falsey ,//x
-Z9_
-matchKey , f64 lengthOf	`a\` // @lengthOf(
-,
-    f32a roots
-    ``
-,float64
-    x_y_z // @lengthOf(
+    // c26
+} // c27
+, // c28a
+  // c28b
+Tail , // c30a
+  // c30b
+} // c31a
+  // c31b
+packet
+    // c32
+Logout // c33a
+  // c33b
+{ // c34a
+  // c34b
+u16 // c35a
+  // c35b
+reason
+    // c36
 , }
+    // c38
+packet
+    // c39
+Tail
+    // c40
+{
+    // c41
+u32 crc
+    // c43
+, // c44
+} // c45a
+  // c45b
 ")).
-Eval vm_compute in ("<<<M370>>>" ++ check (runes_of_ascii "  root packet trueish // " ++ [128512]%N ++ runes_of_ascii " emoji
-{ char[] MetaDataX , @leftPad (
-    // trailing space 
-    '0' )match float as
-//x
+Eval vm_compute in ("<<<M147>>>" ++ check (runes_of_ascii "root
+    packet falsey{	@tag( 255) len@calculatedFrom( ""`tick`""
+    )//
+,match MetaDataX as
+crc
+{	[7 ] :
+    roots ,} ,	@tag( 10 ) @tag(
+// `tick` ""quote"" 'q'
+// `tick` ""quote"" 'q'
+10//
+) @tag( 255)	repeat /// triple
+uint64 rootA	, tag // a // b
+`" ++ [28040; 24687; 31867; 22411]%N ++ runes_of_ascii "` ,
+float32  i64_ , int64 _x  `doc` , @leftPad( ' '
+    )
+match
+// @lengthOf(
+// @lengthOf(
+i8i8 as pack { // `tick` ""quote"" 'q'
+7 : Logon , ""x y"" : lengthOf , } , // trailing space 
+match x_y_z as u
+{
+// `tick` ""quote"" 'q'
+// " ++ [27880; 37322]%N ++ runes_of_ascii "
+[ 0123456789 ] :	packetx ,007 :x_y_z
 // trailing space 
-crc { 0123456789 :// " ++ [27880; 37322]%N ++ runes_of_ascii "
-chars	, ""{,}"" : i8i8,
+//
+, 10 : rootA , 7 : u 0123456789 :falsey
+, }	, // packet A { u8 x, }
 }
-, f32a
-    // " ++ [128512]%N ++ runes_of_ascii " emoji
-    f32a `tab	here` ,// " ++ [128512]%N ++ runes_of_ascii " emoji
-@lengthOf( Foo )
-    Packet@calculatedFrom( """ ++ [28040; 24687]%N ++ runes_of_ascii """ ) `it's` , }
 ")).
-Eval vm_compute in ("<<<M1865>>>" ++ check (runes_of_ascii "packet P1 {
+Eval vm_compute in ("<<<M1369>>>" ++ check (runes_of_ascii "  options	{ StringPrefixLenType= u8
+; ArrayPrefixLenType	=
+
+u8  ;	FixedStringPadFromLeft
+=false; FixedStringPadChar
+
+    =
+	' ';
+
+    }
+    packet
+Ack
+
+{
+char[]
+	tag7 , } 
+packet
+    Reject
+	{InSym61
+
+{
+
+repeat
+Ack
+	,
+
+zchar[4
+
+] f1 
+, } ,}
+
+packet Logout
+{char[
+
+    4
+	] clOrdID
+
+,}
+root
+
+    packet	Cancel {@leftPad ( ' '
+
+)
+
+char[10]
+
+    price,u8 x ,
+    u32 venue
+
+@lengthOf(
+
+Body
+    ) ,
+
+match x as Body
+
+{  [
+    92,175]
+
+:
+Logout, 26
+
+    :	Reject
+	, 144 
+:
+
+Ack
+    , } ,  u16 
+count 
+@calculatedFrom(
+""CRC32""
+    )	, }
+
+")).
+Eval vm_compute in ("<<<M328>>>" ++ check (runes_of_ascii "
+packet
+Logon { repeatCount { BodyLength
+    `crlf
+line`, }
+    , zchar a1 `u8 x,`  ,
+match Foo as Foo { ""\n"" :i8i8,[
+""abc""
+    , // trailing space 
+""CRC32"" ]
+/// triple
+// " ++ [128512]%N ++ runes_of_ascii " emoji
+: // @lengthOf(
+crc
+    [ 3 ,
+//
+// " ++ [128512]%N ++ runes_of_ascii " emoji
+""x y"", 42 , ""`tick`""
+, 1 , ""a\""b"",
+    ""CRC32"" , 255 ]:repeatCount , [// " ++ [128512]%N ++ runes_of_ascii " emoji
+1
+// a // b
+// " ++ [27880; 37322]%N ++ runes_of_ascii "
+,007 ,
+""\n"",007 , 7 , ""// no comment"" ,
+255 ] :
+    uint8x 00
+: f32a , } ,
+    // a // b
+    uint16 Pad @lengthOf( uint8x)// packet A { u8 x, }
+`doc`  ,
+}")).
+Eval vm_compute in ("<<<M1297>>>" ++ check (runes_of_ascii "packet A { // c2a
+  // c2b
+u8
+    // c3
+a ,
+    // c5
+} // c6a
+  // c6b
+packet B // c8
+{ // c9
+u16
+    // c10
+b // c11
+, // c12
+} // c13a
+  // c13b
+root // c14a
+  // c14b
+packet // c15a
+  // c15b
+P
+    // c16
+{ u8 // c18a
+  // c18b
+K // c19
+, match // c21
+K // c22a
+  // c22b
+as // c23
+M // c24
+{ // c25a
+  // c25b
+1 : // c27a
+  // c27b
+A // c28a
+  // c28b
+,
+    // c29
+1
+    // c30
+: B
+    // c32
+,
+    // c33
+} // c34a
+  // c34b
+,
+    // c35
+} ")).
+Eval vm_compute in ("<<<M126>>>" ++ check (runes_of_ascii "
+packet T// c
+{ @tag(  00 )repeat char[]	charz
+`
+` , char[0123456789 ]BodyLength
+    @lengthOf( //x
+Z9_
+    )
+    `u8 x,`
+,
+}	MetaData
+crc {
+float64
+int `" ++ [28040; 24687; 31867; 22411]%N ++ runes_of_ascii "`// a // b
+,	As Logon `` , // `tick` ""quote"" 'q'
+uint8 // " ++ [27880; 37322]%N ++ runes_of_ascii "
+u
+, u32  stringy `
+`,
+// a // b
+//	t
+uint64 uint8x , asx
+calculatedFrom	,//x
+} MetaData chars { char[ 1
+    // `tick` ""quote"" 'q'
+    ] //	t
+chars ,
+    } // trailing space ")).
+Eval vm_compute in ("<<<M1340>>>" ++ check (runes_of_ascii "  options	{
+LittleEndian = 
+true ;
+
+    StringPrefixLenType  =u16
+;  FixedStringPadChar
+
+    =
+' ';}
+packet Logon
+{ @leftPad (	'0' )
+
+    char[ 10]
+tag7 
+, 
+}
+root packet	Ack{
+
+    int32 
+Px ,  uint16  count, string
+Qty
+,	string OrderId
+
+, 
+string
+Flags
+
+    ,
+	u8 x
+    ,match x
+    as
+
+    Body {  [ 58 ,
+169
+    ] : Logon	,
+    }  ,
+
+    }
+")).
+Eval vm_compute in ("<<<M1942>>>" ++ check (runes_of_ascii "
+packet
+A
+{
+u8
+    a
+
+    ,} packet
+    B { 
+u16
+
+    b
+	,	} 
+packet	C 
+{u32 c
+    ,
+    } root 
+packet	M	{
+u16 
+Kc	,  u16
+	Kb , u16 Ka
+,	match
+    Kc
+
+    as
+    X
+{
+    9
+
+    :  A , 10: B
+,  } ,  match
+Kb 
+as
+
+    Y
+
+    {	2
+:
+	C
+
+,1
+
+    :
+A,}	, match
+
+Ka
+as
+	Z { 
+1 :B
+,}
+
+    ,	A  ,  B	,
+C
+    ,
+} ")).
+Eval vm_compute in ("<<<M1439>>>" ++ check (runes_of_ascii "
+packet
+
+    len{  // trailing space 
+
+repeat
+    zchar 
+f32a
+
+`// not a comment`  ,
+@tag(
+    255
+)
+	repeat 
+Pad {
+	x
+T
+,  }
+	, 
+@calculatedFrom(""{,}"")
+    repeat
+	    // a // b
+  leftPad
+
+    { 
+u64
+
+u8x`tab	here`
+    ,  o
+Packet 
+, char[]
+	chars  ,
+},
+    @tag( 
+3 ) float64  i8i8
+    ,}")).
+Eval vm_compute in ("<<<M1603>>>" ++ check (runes_of_ascii "packet MDSnapshotZZ {
     u8 a,
 }
 
-packet P2 {
-    P1,
+packet OrderACK {
+    u16 b,
 }
 
-packet P3 {
-    P2,
-    P1,
+packet HTTPServerInfo {
+    string s,
 }
 
-packet P4 {
-    repeat P3,
-    P2,
-}
-
-root packet P5 {
-    P4,
-    P3,
-    P1,
-    u8 K,
-    match K as Body {
-        4 : P4,
-        3 : P3,
-        2 : P2,
-        1 : P1,
+root packet FIXMsg {
+    u8 KType,
+    MDSnapshotZZ,
+    repeat OrderACK,
+    match KType as Body {
+        1 : HTTPServerInfo,
+        2 : OrderACK,
     },
 }")).
-Eval vm_compute in ("<<<M203>>>" ++ check (runes_of_ascii "root packet Pad {match //	t
-falsey as
-    A{
-255:// `tick` ""quote"" 'q'
-T, } , int64
-Header	`tab	here`
-, repeat i64_ `line1
-line2`, @tag( 7 )
-    float32	zchar
-    @calculatedFrom( ""\" ++ [233]%N ++ runes_of_ascii """
-    )
+Eval vm_compute in ("<<<M214>>>" ++ check (runes_of_ascii "MetaData tag {body Packet	, int16 // @lengthOf(
+body // `tick` ""quote"" 'q'
+, f32a uint8x , } packet falsey {
+x { char[ 7 ] lengthOf , char[] o
+    `say ""hi""`
+    // `tick` ""quote"" 'q'
+    ,
 //
-// @lengthOf(
-,u64 Header ,
-    }
+/// triple
+}
+,}
+// `tick` ""quote"" 'q'
 ")).
-Eval vm_compute in ("<<<M1769>>>" ++ check (runes_of_ascii "
+Eval vm_compute in ("<<<M1498>>>" ++ check (runes_of_ascii "root packet int {
+    f32a @calculatedFrom(""packet"") `
+    `,
+}
+
+options {
+    rootA = ""\" ++ [233]%N ++ runes_of_ascii """;
+}
+
+packet i8i8 {
+    // trailing space 
+    uint8 uint8x @lengthOf(string_),
+    i32 tag @lengthOf(Logon),
+}")).
+Eval vm_compute in ("<<<M1623>>>" ++ check (runes_of_ascii "
 packet
 
-    repeatCount{  trueish ,  }packet  uint8x
-    { 	 /// triple
-    match
-u8x 
-as 
-calculatedFrom  {
-    [
-4294967296
-]
+A 
+{
 
-:len
+match
 
-, [""" ++ [128512]%N ++ runes_of_ascii """ 
-,""" ++ [233]%N ++ runes_of_ascii "t" ++ [233]%N ++ runes_of_ascii """
-,	255
-,//
+    k as n { 
+[ ""a""
+	,""bb""
 
-  1 ] : falsey,
-    }
+    , 
+007,	""d""  ,""e""
 
     ,
-	}
-")).
-Eval vm_compute in ("<<<M1885>>>" ++ check (runes_of_ascii "packet
-    A
+	66
+    ,
+""g""
 
-    { 
-Inner{	match  k
-as
-
-    n
-	{
-    [
-1
-
-,  22 ,007
+,  ""h"" ,9
 
     ,
 
-    4,5  ,  66	,
-
-    7
-, 8,
-	9
-
-    , 10
-,	11
-,12 ]
+    ""j"",""k""  ,  12	]
 
     :
-B
-    ,},
+B 2:
+	C
+
+    } ,
 }
-	,
+")).
+Eval vm_compute in ("<<<M60>>>" ++ check (runes_of_ascii "root packet _x
+{ uint32 trueish @calculatedFrom( ""1"" ) `crlf
+line`
+,  }
+    //
+    packet	Header { repeat u64
+stringy `// not a comment` , float32  msg_type ,}
+")).
+Eval vm_compute in ("<<<M438>>>" ++ check (runes_of_ascii "packet uint8x
+{ match pack
+    as msg_type	{
+    0123456789 `it's`	float
+}
+,
+} packet //	t
+a1
+    { } options {packetx
+    = '\x00'	; u128= ""a	b""  ; }
+")).
+Eval vm_compute in ("<<<M486>>>" ++ check (runes_of_ascii "packet uint8x
+{ match pack
+    as msg_type	{
+    0123456789 :	float
+}
+,
+} packet //	t
+a1
+    { } options { {packetx
+    = '\x00'	; u128= ""a	b""  ; }
+")).
+Eval vm_compute in ("<<<M407>>>" ++ check (runes_of_ascii "packet uint8x
+{ pack match
+    as msg_type	{
+    0123456789 :	float
+}
+,
+} packet //	t
+a1
+    { } options {packetx
+    = '\x00'	; u128= ""a	b""  ; }
+")).
+Eval vm_compute in ("<<<M425>>>" ++ check (runes_of_ascii "packet uint8x
+{ match pack
+    as msg_type	
+    0123456789 :	float
+}
+,
+} packet //	t
+a1
+    { } options {packetx
+    = '\x00'	; u128= ""a	b""  ; }
+")).
+Eval vm_compute in ("<<<M1455>>>" ++ check (runes_of_ascii "root packet packetx {
+    char[1] chars @calculatedFrom(""packet"") `say ""hi""`,
 }
 
-")).
-Eval vm_compute in ("<<<M224>>>" ++ check (runes_of_ascii "root packet
-T
-{ zchar[ // a // b
-0123456789
-] // c
-uint8x , }  root packet metadata { @rightPad( )  x_y_z @lengthOf( stringy )
-// `tick` ""quote"" 'q'
-// c
-, }")).
-Eval vm_compute in ("<<<M508>>>" ++ check (runes_of_ascii "packet uint8x
+options {
+    asx = 65535
+    u = float64
+    repeatCount = ""\" ++ [233]%N ++ runes_of_ascii """
+}")).
+Eval vm_compute in ("<<<M500>>>" ++ check (runes_of_ascii "packet uint8x
 { match pack
     as msg_type	{
     0123456789 :	float
@@ -870,281 +971,240 @@ Eval vm_compute in ("<<<M508>>>" ++ check (runes_of_ascii "packet uint8x
 } packet //	t
 a1
     { } options {packetx
-    = '\x00'	int16 u128= ""a	b""  ; }
+    = 	; u128= ""a	b""  ; }
 ")).
-Eval vm_compute in ("<<<M516>>>" ++ check (runes_of_ascii "packet uint8x
-{ match pack
-    as msg_type	{
-    0123456789 :	float
-}
+Eval vm_compute in ("<<<M185>>>" ++ check (runes_of_ascii "root packet lengthOf{ @leftPad
+    (
+' '// c
+)
+repeat char MetaDataX
 ,
-} packet //	t
-a1
-    { } options {packetx
-    = '\x00'	; u128= = ""a	b""  ; }
-")).
-Eval vm_compute in ("<<<M427>>>" ++ check (runes_of_ascii "packet uint8x
-{ match pack
-    as msg_type	0123456789
-    { :	float
-}
-,
-} packet //	t
-a1
-    { } options {packetx
-    = '\x00'	; u128= ""a	b""  ; }
-")).
-Eval vm_compute in ("<<<M445>>>" ++ check (runes_of_ascii "packet uint8x
-{ match pack
-    as msg_type	{
-    0123456789 :	float
-
-,
-} packet //	t
-a1
-    { } options {packetx
-    = '\x00'	; u128= ""a	b""  ; }
-")).
-Eval vm_compute in ("<<<M410>>>" ++ check (runes_of_ascii "packet uint8x
-{ match 
-    as msg_type	{
-    0123456789 :	float
-}
-,
-} packet //	t
-a1
-    { } options {packetx
-    = '\x00'	; u128= ""a	b""  ; }
-")).
-Eval vm_compute in ("<<<M660>>>" ++ check (runes_of_ascii "/""/ @lengthOf(
+}MetaData
+Pad {
+msg_type rootA// trailing space 
+`// not a comment`, }")).
+Eval vm_compute in ("<<<M686>>>" ++ check (runes_of_ascii "// @lengthOf(
 packet i8i8 { u128 o , }
-options { MetaDataX = true;
+options { f64 = true;
     BodyLength =""packet"" x_y_z= 007
 crc //x
 = ""abc"" ;
     msg_type =
 i16 }")).
-Eval vm_compute in ("<<<M692>>>" ++ check (runes_of_ascii "// @lengthOf(
-packet i8i8 { u128 o , }
-options { MetaDataX = true;
-    BodyLength =""packet"" x_y_z= 007
-u8 //x
-= ""abc"" ;
-    msg_type =
-i16 }")).
-Eval vm_compute in ("<<<M1587>>>" ++ check (runes_of_ascii "packet A {
-    Inner {
-        u8 x `
-                `,
-        Deep {
-            u8 y `
-                        `,
-        },
-    },
-}")).
-Eval vm_compute in ("<<<M1405>>>" ++ check (runes_of_ascii "packet A
-{
-
-match
-k
-
-as
-n	{  [ ""a""
-
-,
-
-""bb"" , 007 , ""d""
-
-    ,
-""e"",  66
-
-, 
-""g""
-	, ""h""
-    ,9
-	,
-
-""j""]
-    : B,
-
-2
-	:  C 
-},	} ")).
-Eval vm_compute in ("<<<M1264>>>" ++ check (runes_of_ascii "packet B {
+Eval vm_compute in ("<<<M1296>>>" ++ check (runes_of_ascii "packet A {
     u8 a,
+}
+packet B {
+    u16 b,
 }
 root packet P {
     u8 K,
-    match K as Body {
+    match K as M {
+        1 : A,
         1 : B,
     },
-    u16 L @lengthOf(Body),
 }
 ")).
-Eval vm_compute in ("<<<M1152>>>" ++ check (runes_of_ascii "MetaData leftPad { chars MetaDataX
-// c
-, } packet repeatCount { char[ 255 ] uint8x `" ++ [233]%N ++ runes_of_ascii "` , } MetaData pack { As Foo , }")).
-Eval vm_compute in ("<<<M1184>>>" ++ check (runes_of_ascii "MetaData leftPad { chars MetaDataX , } packet repeatCount { char[ 255 ] uint8x `" ++ [233]%N ++ runes_of_ascii "` , } MetaData pack { As
-// c
-Foo , }")).
-Eval vm_compute in ("<<<M894>>>" ++ check (runes_of_ascii "packet A {
+Eval vm_compute in ("<<<M1506>>>" ++ check (runes_of_ascii "  packet
+    A
+    { match 
+k as
+n	{ [
+1
+
+    , 22
+
+, 007 , 4
+
+,  5 ,
+	66 ]
+
+    : B
+
+    ,
+    2 :
+    C 
+} ,
+    } ")).
+Eval vm_compute in ("<<<M1147>>>" ++ check (runes_of_ascii "MetaData leftPad { // c
+chars MetaDataX , } packet repeatCount { char[ 255 ] uint8x `" ++ [233]%N ++ runes_of_ascii "` , } MetaData pack { As Foo , }")).
+Eval vm_compute in ("<<<M1179>>>" ++ check (runes_of_ascii "MetaData leftPad { chars MetaDataX , } packet repeatCount { char[ 255 ] uint8x `" ++ [233]%N ++ runes_of_ascii "` , } MetaData pack // c
+{ As Foo , }")).
+Eval vm_compute in ("<<<M1796>>>" ++ check (runes_of_ascii "packet	A
+{match
+    k as 
+n
+{  [	1
+
+,
+22 ,""c c""
+, 4
+	,
+
+    5 
+,""f"" , 
+7
+    ]
+    :
+
+    B
+	2
+:
+C 
+},
+
+}
+")).
+Eval vm_compute in ("<<<M955>>>" ++ check (runes_of_ascii "packet A {
+    u16 len @lengthOf(body) `
+x`,
+    u32 crc @calculatedFrom(""CRC32"") `
+x`,
+    string body,
+}")).
+Eval vm_compute in ("<<<M889>>>" ++ check (runes_of_ascii "packet A {
   match k as n {
-    [""a"", ""bb"", ""c c"", ""d"", ""e"", ""f"", ""g"", ""h"", ""i"", ""j"", ""k""] : B
+    [""a"", ""bb"", 007, ""d"", ""e"", 66, ""g"", ""h"", 9, ""j""] : B
     2 : C
   },
 }")).
-Eval vm_compute in ("<<<M1279>>>" ++ check (runes_of_ascii "options {
-    LittleEndian = true;
-}
-root packet P {
-    u16 a,
-    u32 Sum @calculatedFrom(""CR\
-C32""),
-}
-")).
-Eval vm_compute in ("<<<M1718>>>" ++ check (runes_of_ascii "packet _x {
-}// trailing space 
+Eval vm_compute in ("<<<M1497>>>" ++ check (runes_of_ascii "root
 
-options {
-    repeatCount = 42;
-    Pad = true;
-    x_y_z = 65535;
-}")).
-Eval vm_compute in ("<<<M590>>>" ++ check (runes_of_ascii "
+packet 
+SimpleMessage{
+uint16
+    MsgType `" ++ [28040; 24687; 31867; 22411]%N ++ runes_of_ascii "`
+
+,
+
+string
+JsonBody `Json" ++ [23383; 31526; 20018; 28040; 24687; 20307]%N ++ runes_of_ascii "`
+	,
+    }")).
+Eval vm_compute in ("<<<M615>>>" ++ check (runes_of_ascii "
 packet
     asx {match u128 as lengthOf
-MetaData
+{
 //	t
 // `tick` ""quote"" 'q'
 255 : x ,
-    } ,	}")).
-Eval vm_compute in ("<<<M891>>>" ++ check (runes_of_ascii "packet A {
-  match k as n {
-    [1, 22, 007, 4, 5, 66, 7, 8, 9, 10, 11] : B,
-    2 : C
-  },
-}")).
-Eval vm_compute in ("<<<M559>>>" ++ check (runes_of_ascii "
+    match ,	}")).
+Eval vm_compute in ("<<<M645>>>" ++ check (runes_of_ascii "
 packet
-    { asx match u128 as lengthOf
+    asx {match u128 as lengthOf
 {
 //	t
 // `tick` ""quote"" 'q'
-255 : x ,
+255 : a" ++ [769]%N ++ runes_of_ascii "b ,
     } ,	}")).
-Eval vm_compute in ("<<<M874>>>" ++ check (runes_of_ascii "packet A {
-  match k as n {
-    [1, 22, ""c c"", 4, 5, ""f"", 7, 8, ""i""] : B
-    2 : C
-  },
-}")).
-Eval vm_compute in ("<<<M1289>>>" ++ check (runes_of_ascii "
-root
-
-    packet
-
-P
-{repeat	string
-    ss
-    ,  repeat
-    u16
-ns
-    ,
-
-    }
-")).
-Eval vm_compute in ("<<<M1560>>>" ++ check (runes_of_ascii "packet A {
-    match k as n {
-        [""a"", ""bb"", 007] : B,
-        2 : C,
-    },
-}")).
-Eval vm_compute in ("<<<M819>>>" ++ check (runes_of_ascii "packet A {
-  match k as n {
-    [""a"", 22, ""c c"", 4, ""e""] : B,
-    2 : C
-  },
-}")).
-Eval vm_compute in ("<<<M821>>>" ++ check (runes_of_ascii "packet A {
-  match k as n {
-    [1, 22, ""c c"", 4, 5] : B,
-    2 : C
-  },
-}")).
-Eval vm_compute in ("<<<M793>>>" ++ check (runes_of_ascii "packet A {
-  match k as n {
-    [""a"", 22, ""c c""] : B,
-    2 : C
-  },
-}")).
-Eval vm_compute in ("<<<M1290>>>" ++ check (runes_of_ascii "root packet P {
-    u8 s_u8,
-    repeat u8 r_u8,
-    u16 b_len,
-}
-")).
-Eval vm_compute in ("<<<M825>>>" ++ check (runes_of_ascii "packet A { Inner { match k as n { [1,22,007,4,5] : B, }, }, }")).
-Eval vm_compute in ("<<<M1088>>>" ++ check (runes_of_ascii "packet A { @tag(1) // a
- @leftPad('0') // b
- char[4] x, }")).
-Eval vm_compute in ("<<<M963>>>" ++ check (runes_of_ascii "MetaData M {
-    u8 x `tab
-	x`,
-    T t `tab
-	x`,
-}")).
-Eval vm_compute in ("<<<M1708>>>" ++ check (runes_of_ascii "
-
-  packet
-
-A
-    { u8 
-x
-
-`d" ++ [12]%N ++ runes_of_ascii "`
-    , 	 // c" ++ [12]%N ++ runes_of_ascii "
-  	}")).
-Eval vm_compute in ("<<<M1658>>>" ++ check (runes_of_ascii "
-MetaData	M { 
-}	// c
-	MetaData 
-N 
+Eval vm_compute in ("<<<M599>>>" ++ check (runes_of_ascii "
+packet
+    asx {match u128 as lengthOf
 {
-
-}// d")).
-Eval vm_compute in ("<<<M1240>>>" ++ check (runes_of_ascii "root packet P {
-    char c,
+//	t
+// `tick` ""quote"" 'q'
+255 x : ,
+    } ,	}")).
+Eval vm_compute in ("<<<M845>>>" ++ check (runes_of_ascii "packet A {
+  match k as n {
+    [""a"", 22, ""c c"", 4, ""e"", 66, ""g""] : B,
+    2 : C
+  },
+}")).
+Eval vm_compute in ("<<<M1302>>>" ++ check (runes_of_ascii "packet order_item {
+    u8 a,
+}
+root packet new_order {
+    order_item,
     u8 x,
 }
 ")).
-Eval vm_compute in ("<<<M1408>>>" ++ check (runes_of_ascii "
-options
-
-    { 	 // a // b
-  }
-")).
-Eval vm_compute in ("<<<M753>>>" ++ check (runes_of_ascii ":l" ++ [65533; 23]%N ++ runes_of_ascii "9" ++ [65533; 1549]%N ++ runes_of_ascii "F" ++ [65533; 65533; 65533; 65533]%N ++ runes_of_ascii "j)" ++ [65533; 65533; 27; 25; 65533; 65533; 261; 14; 65533]%N ++ runes_of_ascii "V" ++ [65533; 65533]%N ++ runes_of_ascii "4b-" ++ [65533; 65533]%N)).
-Eval vm_compute in ("<<<M1703>>>" ++ check (runes_of_ascii "
-
-  packet 
-A
-{ }
-    // c x")).
-Eval vm_compute in ("<<<M713>>>" ++ check (runes_of_ascii "// @lengthOf(
-packet i8i8")).
-Eval vm_compute in ("<<<M1064>>>" ++ check (runes_of_ascii "packet A {
-}// a// b")).
-Eval vm_compute in ("<<<M1062>>>" ++ check (runes_of_ascii "// c x
-packet A {
-}")).
-Eval vm_compute in ("<<<M1016>>>" ++ check (runes_of_ascii "packet A {
+Eval vm_compute in ("<<<M1451>>>" ++ check (runes_of_ascii "options {
+    FixedStringPadFromLeft = true;
 }
-// c" ++ [8233]%N)).
-Eval vm_compute in ("<<<M989>>>" ++ check (runes_of_ascii "packet A {
-}// c" ++ [133]%N)).
-Eval vm_compute in ("<<<M1909>>>" ++ check (runes_of_ascii "packet zchar {
-}")).
-Eval vm_compute in ("<<<M1870>>>" ++ check (runes_of_ascii "// " ++ [128512]%N ++ runes_of_ascii " emoji")).
-Eval vm_compute in ("<<<M293>>>" ++ check (runes_of_ascii "  
 
+root packet P {
+    char[4] z,
+}")).
+Eval vm_compute in ("<<<M803>>>" ++ check (runes_of_ascii "packet A {
+  match k as n {
+    [""a"", ""bb"", ""c c"", ""d""] : B
+    2 : C
+  },
+}")).
+Eval vm_compute in ("<<<M807>>>" ++ check (runes_of_ascii "packet A {
+  match k as n {
+    [""a"", 22, ""c c"", 4] : B
+    2 : C
+  },
+}")).
+Eval vm_compute in ("<<<M792>>>" ++ check (runes_of_ascii "packet A {
+  match k as n {
+    [1, ""bb"", 007] : B
+    2 : C
+  },
+}")).
+Eval vm_compute in ("<<<M365>>>" ++ check (runes_of_ascii "MetaData x_y_z { i8i8 u8x , string	uint8x
+    `crlf
+line` , }")).
+Eval vm_compute in ("<<<M776>>>" ++ check (runes_of_ascii "packet A {
+  match k as n {
+    [""a""] : B
+    2 : C
+  },
+}")).
+Eval vm_compute in ("<<<M1242>>>" ++ check (runes_of_ascii "root packet
+    P {
+
+    char
+	c
+    , u8  x 
+,
+
+}
 ")).
+Eval vm_compute in ("<<<M1502>>>" ++ check (runes_of_ascii "MetaData M {
+    u8 x `x
+    `,
+    T t `x
+    `,
+}")).
+Eval vm_compute in ("<<<M763>>>" ++ check (runes_of_ascii "@calculatedFrom( true ; MetaData """ ++ [233]%N ++ runes_of_ascii "t" ++ [233]%N ++ runes_of_ascii """ match")).
+Eval vm_compute in ("<<<M1621>>>" ++ check (runes_of_ascii "
+packet A
+    { 	 // a
+  	u8 x
+    , }
+")).
+Eval vm_compute in ("<<<M50>>>" ++ check (runes_of_ascii "options {
+    Packet =  char[]  }
+")).
+Eval vm_compute in ("<<<M1471>>>" ++ check (runes_of_ascii "
+// c" ++ [8192]%N ++ runes_of_ascii "
+packet
+A
+    {
+
+    } ")).
+Eval vm_compute in ("<<<M1028>>>" ++ check (runes_of_ascii "packet A {
+ u8 x `d" ++ [8287]%N ++ runes_of_ascii "`, // c" ++ [8287]%N ++ runes_of_ascii "
+}")).
+Eval vm_compute in ("<<<M1819>>>" ++ check (runes_of_ascii "packet A {
+    char[3] x,
+}")).
+Eval vm_compute in ("<<<M1104>>>" ++ check (runes_of_ascii "
+// c
+MetaData tag { }")).
+Eval vm_compute in ("<<<M1136>>>" ++ check (runes_of_ascii "MetaData u { } // c
+")).
+Eval vm_compute in ("<<<M991>>>" ++ check (runes_of_ascii "packet A {
+}
+// c" ++ [133]%N)).
+Eval vm_compute in ("<<<M1233>>>" ++ check (runes_of_ascii "packet x { }
+// c
+")).
+Eval vm_compute in ("<<<M1659>>>" ++ check (runes_of_ascii "packet falsey {
+}")).
+Eval vm_compute in ("<<<M241>>>" ++ check (runes_of_ascii "/// triple
+")).
+Eval vm_compute in ("<<<M1050>>>" ++ check (runes_of_ascii "// c" ++ [65279]%N)).
